@@ -145,6 +145,9 @@ def gen_leaf(rng, ns, nu, allow, in_split_state=False, in_split_input=False):
             return None
         if k == 'poly':
             order = int(rng.choice([1, 2, 2, 3]))
+            import math
+            while order > 1 and math.comb(n + order, order) > 300:
+                order -= 1          # keep the number of monomials (and the time of one case) bounded
             io = bool(rng.random() < 0.3)
             s = ('poly', order, io)
         elif k == 'bilinear':
